@@ -19,7 +19,20 @@ def strategy(draw):
     prof = Profile(vrl=[256, 8192], max_frames=2, max_channels=4, max_rows=16, max_width=5, casts=True, any_casts=True,
                    layouts=('C', 'F', 'strided', 'neg', 'ro', 'view'), specials=True, units=False,
                    sources=('struct',), chunks=True, windows=True, upper_names=True)
+    plain = draw(st.integers(0, 3)) == 0
+    if plain:
+        # a structured array whose dtype coincides with the frame's (native byte order, no casts, fields in channel
+        # order): the writer may then hand out views of the caller's array instead of copies
+        prof = Profile(vrl=[256, 8192], max_frames=1, max_channels=4, max_rows=16, max_width=5, casts=False,
+                       byte_orders=('<',), layouts=('C',), specials=True, units=False, sources=('struct',), chunks=True,
+                       windows=True, upper_names=True)
     spec = draw(file_specs(prof))
+    if plain:
+        spec['write']['source'] = 'struct'
+        spec['write']['opts'] = {'perm': None, 'extra': []}
+        spec['fail'] = None
+        spec['plain'] = True
+        return spec
     spec['write']['source'] = draw(st.sampled_from(SOURCES))
     spec['write']['opts'] = {'perm': draw(st.sampled_from([None, 'rev'])),
                              'extra': draw(st.lists(st.integers(0, 2), max_size=1))}
@@ -59,11 +72,12 @@ class C19(Property):
         dw.check_import_location()
         spec = copy.deepcopy(spec)
         fail = spec.pop('fail', None)
+        plain = spec.pop('plain', False)
         src = spec['write'].get('source', 'inline')
         chans = [op for lf in spec['lfs'] for op in lf['ops'] if op['t'] == 'channel']
         rows = min(c['data']['shape'][0] for c in chans)
         ics = spec['write'].get('ics')
-        labels = ['src:' + src] + (['fail:' + fail] if fail else [])
+        labels = ['src:' + src] + (['fail:' + fail] if fail else []) + (['struct-dtype-coincides'] if plain else [])
         nt = (src == 'struct' or any(c.get('cast') for c in chans) or any(c['data']['dt'][0] == '>' for c in chans)) \
             and bool(ics) and ics < rows
         try:
